@@ -31,6 +31,22 @@ Theorem C13_sign_exact : forall (sign : Z -> Z -> Z) (addr_of : Z -> Z) (msg_of 
 Proof. exact sign_tx_spec. Qed.
 Print Assumptions C13_sign_exact.
 
+(* the header precondition, explicitly: success implies InnerHash field = hash of
+   the body (and the result carries that hash); a transaction whose InnerHash is
+   anything else — null, another transaction's, corrupted — is refused with an
+   error, nothing being signed.  C13_all_verify speaks of the FINAL inner hash. *)
+Theorem C13_inner_precondition : forall (sign : Z -> Z -> Z) (addr_of : Z -> Z) (msg_of : Z -> Z -> Z) w t idxs owners t',
+  sign_tx sign addr_of msg_of w t idxs owners = Val (inr t') ->
+  s_inner t = s_inner_actual t /\ s_inner t' = s_inner_actual t /\ s_inner_actual t' = s_inner_actual t.
+Proof. exact sign_tx_inner_ok. Qed.
+Print Assumptions C13_inner_precondition.
+
+Theorem C13_bad_inner_refused : forall (sign : Z -> Z -> Z) (addr_of : Z -> Z) (msg_of : Z -> Z -> Z) w t idxs owners,
+  w_kind w <> KXPub -> w_encrypted w = false -> s_inner t <> s_inner_actual t ->
+  sign_tx sign addr_of msg_of w t idxs owners = Val (inl ESInner).
+Proof. exact sign_tx_bad_inner. Qed.
+Print Assumptions C13_bad_inner_refused.
+
 Theorem C13_no_overwrite : forall (sign : Z -> Z -> Z) (addr_of : Z -> Z) (msg_of : Z -> Z -> Z),
   (forall k m, sign k m <> 0) ->
   (forall k1 k2, addr_of k1 = addr_of k2 -> k1 = k2) ->
@@ -74,6 +90,8 @@ Example C13_example :
   sign_tx t_sign t_addr_of t_msg_of w t [] [2; 3; 2] =
     Val (inr (mk_stx 9 9 [t_sign 2 11; t_sign 3 12; t_sign 2 13] [11; 12; 13] [])) /\
   sign_tx t_sign t_addr_of t_msg_of w t [1] [2; 3; 2] = Val (inl ESAlready) /\
-  sign_tx t_sign t_addr_of t_msg_of w t [0] [7; 3; 2] = Val (inl ESCannot).
+  sign_tx t_sign t_addr_of t_msg_of w t [0] [7; 3; 2] = Val (inl ESCannot) /\
+  (* header never computed: InnerHash field null (id 0), body hash 9 *)
+  sign_tx t_sign t_addr_of t_msg_of w (mk_stx 0 9 [0; 0; 0] [11; 12; 13] []) [] [2; 3; 2] = Val (inl ESInner).
 Proof. vm_compute. repeat split; reflexivity. Qed.
 Print Assumptions C13_example.
